@@ -230,6 +230,16 @@ def local_basis(d, kind, rot):
         return rm.rotate_basis(base, orth_from_raw(rot, d * d - 1), keep_first=True)
     if kind == "rot_free":
         return rm.rotate_basis(base, orth_from_raw(rot, d * d), keep_first=False)
+    if kind == "comp":
+        # the (non-Hermitian) matrix units E_ij, row-major: a composite system built on computational bases.  Only ever a
+        # conversion TARGET (its CompositeSystem.basis() is a sparse basis, unlike the dense comp_basis(mode) objects)
+        out = []
+        for i in range(d):
+            for j in range(d):
+                e = np.zeros((d, d), dtype=complex)
+                e[i, j] = 1.0
+                out.append(e)
+        return out
     raise ValueError(kind)
 
 
@@ -629,7 +639,8 @@ def is_complex_structured(a, thr=1e-9):
 
 
 # ============================================================================= facet: basis_sweep (enumeration)
-SWEEP_TARGETS = ("row_major", "column_major", "normal", "hermitian", "rot_free")
+SWEEP_TARGETS = ("row_major", "column_major", "normal", "hermitian", "rot_free", "comp")
+TARGET_KINDS = ("normal", "hermitian", "rot_keep", "rot_free", "comp")
 
 
 def _target_aux(env, to, ctx=None):
@@ -751,7 +762,7 @@ def lin_case(draw, tier):
     if conv in ("hs2basis", "vec2basis"):
         case["to"] = draw(st.sampled_from(["cfg2", "column_major", "row_major"]))
         if case["to"] == "cfg2":
-            case["cfg2"] = draw(cfg_st((cfg["shape"],)))
+            case["cfg2"] = draw(cfg_st((cfg["shape"],), kinds=TARGET_KINDS))
     case["a"] = draw(st.floats(-3, 3, allow_nan=False))
     case["b"] = draw(st.floats(-3, 3, allow_nan=False))
     case["x"] = draw(gen.raw(dim))
@@ -867,7 +878,7 @@ def agree_case(draw, tier):
         "to": draw(st.sampled_from(["cfg2", "column_major", "row_major"])),
     }
     if case["to"] == "cfg2":
-        case["cfg2"] = draw(cfg_st(shp))
+        case["cfg2"] = draw(cfg_st(shp, kinds=TARGET_KINDS))
     if t in ("mprocess", "povm"):
         case["use_shape"] = draw(st.booleans())
     case["pert"] = draw(gen.raw(16))
@@ -1011,7 +1022,7 @@ def rt_case(draw, tier):
     if kind in ("convert_hs", "convert_vec"):
         case["to"] = draw(st.sampled_from(["cfg2", "cfg2", "column_major", "row_major"]))
         if case["to"] == "cfg2":
-            case["cfg2"] = draw(cfg_st((cfg["shape"],)))
+            case["cfg2"] = draw(cfg_st((cfg["shape"],), kinds=TARGET_KINDS))
     case["x"] = draw(gen.raw(size))
     return case
 
